@@ -209,7 +209,12 @@ func c17JudgeM(w *c17World, o c17Opts, op c17Op, method string) (bad, kind strin
 		if body != string(want) {
 			return fmt.Sprintf("XML body %q differs from the standard encoder's output %q", trunc(body), trunc(string(want))), "xml-text"
 		}
+		if len(want) == 0 {
+			return "", "" // an empty document: nothing to decode
+		}
 		switch op.Val.(type) {
+		case []c17Flat, *c17Flat:
+			return "", "" // several top-level elements / pointer targets: only the text is compared
 		case c17Any, []interface{}:
 			// the dynamic types behind an interface are not in the XML text: only the text is compared
 			return "", ""
@@ -266,6 +271,8 @@ func c17XMLValues() []interface{} {
 		out = append(out, c17Slice{Items: []string{a}}, c17Slice{}, c17Any{V: a}, []interface{}{a, 1}, []interface{}{c17Flat{A: a}})
 	}
 	out = append(out, c17Any{V: 7}, c17Any{V: c17Flat{A: "in"}})
+	// encodable values whose XML document is empty (the status and Content-Type still go out)
+	out = append(out, nil, (*c17Flat)(nil), []c17Flat{}, []string(nil), []c17Flat{{A: "1"}, {A: "2"}}, &c17Flat{A: "p"})
 	return out
 }
 
